@@ -205,14 +205,25 @@ def check(world, tier):
                                 const0 = (not aa[1] and aa[0] == 0) or (not bb_[1] and bb_[0] == 0)
                                 if const0 and ((op == "Eq" and cnd[2]) or (op == "Ne" and not cnd[2])):
                                     zero_edges.add(edge)
-        entry = (owner, 0)
-        for okn in own_ok:
-            b.ob(bool(ack_edges) and S.g.dominated_by_edges(entry, okn, ack_edges), "oack-reply-must-be-ack",
-                 "the OACK-reply check can return Ok although the reply is not an ACK (e.g. an ERROR from the peer is ignored)",
-                 sample={"Ok return": node_str(prog, okn), "dominated by": "reply is Ack"})
-            b.ob(bool(zero_edges) and S.g.dominated_by_edges(entry, okn, zero_edges), "oack-reply-must-be-ack0",
-                 "the OACK-reply check can return Ok although the acknowledged block number is not 0",
-                 sample={"Ok return": node_str(prog, okn), "dominated by": "block number == 0"})
+        # what must be guarded by "the reply is ACK 0": the Ok return of a dedicated check function, or - when the check is
+        # written inline in the transfer function - the data phase (first DATA transmission / entry of the transfer loops)
+        tfS_ = S.transfer_frame()
+        if owner == tfS_ or len(owner) < len(tfS_ or ()):
+            targets = set(S.send_nodes(variants=("Data",))) | set((f, hh) for f, hh in S.transfer_loops())
+            what = "the data phase starts"
+        else:
+            targets = set(own_ok)
+            what = "the OACK-reply check returns Ok"
+        b.need(len(targets), 1, "continuation guarded by the OACK-reply check")
+        for okn in sorted(targets, key=repr):
+            r_ack = S.g.reachable(list(S.g.succ.get(n, ())), avoid_edges=ack_edges)
+            r_zero = S.g.reachable(list(S.g.succ.get(n, ())), avoid_edges=zero_edges)
+            b.ob(bool(ack_edges) and okn not in r_ack, "oack-reply-must-be-ack",
+                 "%s although the reply to the OACK is not an ACK (e.g. an ERROR from the peer is ignored)" % what,
+                 sample={"guarded": node_str(prog, okn), "dominated by": "reply is Ack"})
+            b.ob(bool(zero_edges) and okn not in r_zero, "oack-reply-must-be-ack0",
+                 "%s although the acknowledged block number is not 0" % what,
+                 sample={"guarded": node_str(prog, okn), "dominated by": "block number == 0"})
         # nothing is sent between the reply and its classification as a peer ERROR
         for ev in evs:
             ps = S.result_discr_sym(ev, (("v", 0), 0))
@@ -335,21 +346,24 @@ def time_bounded(world, eng, a):
     # the channel-backed socket waits with a timeout taken from its own field, which set_read_timeout stores
     impl_recv = "tftpd::<socket::ServerSocket as socket::Socket>::recv_with_size"
     impl_set = "tftpd::<socket::ServerSocket as socket::Socket>::set_read_timeout"
-    fi = prog.field_index("tftpd::socket::ServerSocket", "timeout")
+    # the socket's own timeout: the Duration kept in the ServerSocket value (possibly inside a private helper struct)
+    dur_paths = [pth for (pth, ti_, nm_) in world.struct_leaves("tftpd::socket::ServerSocket") if prog.types[ti_]["s"] == "std::time::Duration"] \
+        if "tftpd::socket::ServerSocket" in prog.adts else []
+    fi = dur_paths[0] if dur_paths else None
     if impl_recv in prog.bodies and impl_set in prog.bodies and fi is not None:
         e1 = world.run("fn:" + impl_recv)
         waits = [e for e in e1.events if base_name(e).startswith("std::sync::mpsc::Receiver::recv")]
         a.need(len(waits), 1, "channel receive in ServerSocket::recv_with_size")
         for e in waits:
             n = base_name(e)
-            okk = n.endswith("recv_timeout") and len(e.args) > 1 and term_contains(e.args[1], lambda t: isinstance(t, tuple) and len(t) == 3 and t[0] == "init" and t[2] == (fi,)) or \
+            okk = n.endswith("recv_timeout") and len(e.args) > 1 and term_contains(e.args[1], lambda t: isinstance(t, tuple) and len(t) == 3 and t[0] == "init" and tuple(t[2][:len(fi)]) == tuple(fi)) or \
                 (n.endswith("recv_timeout") and len(e.args) > 1 and is_field_read(e1, e.args[1], fi))
             a.ob(okk, "channel-wait-unbounded", "ServerSocket::recv_with_size waits on its channel without the socket's timeout", e.loc,
                  sample={"wait": n, "timeout arg": repr(e.args[1])[:80] if len(e.args) > 1 else None})
         e2 = world.run("fn:" + impl_set)
         stored = False
         for (node, root, path, v) in e2.writes_log:
-            if root[0] == "P" and path[:1] == (fi,):
+            if root[0] == "P" and tuple(path[:len(fi)]) == tuple(fi):
                 stored = True
         a.ob(stored, "read-timeout-not-stored", "ServerSocket::set_read_timeout does not store the duration used by recv_with_size",
              sample={"set_read_timeout stores field": fi, "stored": stored})
@@ -361,5 +375,5 @@ def is_field_read(eng, v, fi):
     """value is the (lazily initialised) content of field fi of the method's self object"""
     if isinstance(v, tuple) and v and v[0] == "t":
         t = v[1]
-        return isinstance(t, tuple) and t and t[0] == "init" and len(t) == 3 and tuple(t[2][:1]) == (fi,)
+        return isinstance(t, tuple) and t and t[0] == "init" and len(t) == 3 and tuple(t[2][:len(fi)]) == tuple(fi)
     return False
